@@ -1,7 +1,7 @@
 (* C42 — proofs: CAS register (linearizability over all schedules, winners),
    ranged reads = requested window, concatenation, oracle on the model. *)
-From Coq Require Import NArith ZArith List Bool Lia.
-From Dolt Require Import Base.Str Gen.C42Consts C42.Model C42.Spec C42.Corr.
+From Coq Require Import NArith ZArith List Bool Lia PeanoNat.
+From Dolt Require Import Base.Str Gen.C42Consts C42.Model C42.Spec C42.NbsModel C42.Corr.
 Import ListNotations.
 
 (* ---- regenerated constants the harness / generator rely on ---------------- *)
@@ -611,11 +611,11 @@ Proof.
   change (cur_ver empty_store manifest_key) with 0%N. intro X. destruct (HF 0%N X) as [G _]. apply G. reflexivity.
 Qed.
 
-Theorem oracle_on_model : forall i : input,
-  fresh_trace [] (sched_trace (fst i) empty_store (snd i)) = true ->
-  oracle i (model_obs i) = true.
+Lemma blob_oracle_on_model b sch :
+  fresh_trace [] (sched_trace b empty_store sch) = true ->
+  blob_oracle sch (blob_model b sch) = true.
 Proof.
-  intros [b sch] Hf. cbn [fst snd] in Hf. unfold oracle, model_obs. cbn [fst snd].
+  intros Hf. unfold blob_oracle, blob_model.
   unfold sched_trace in *. set (ops := map snd sch) in *.
   assert (Hc : combine ops (map snd (trace b empty_store ops)) = trace b empty_store ops).
   { rewrite <- (trace_ops b ops empty_store) at 1. apply combine_fst_snd. }
@@ -626,11 +626,289 @@ Proof.
   apply winners_nodup. apply fresh_trace_versions_distinct. exact Hf.
 Qed.
 
+(* ======================================================================== *)
+(* A CheckAndPut with a version read earlier: read + CAS is atomic            *)
+(* ======================================================================== *)
+Lemma trace_app b a1 : forall s a2,
+  trace b s (a1 ++ a2) = trace b s a1 ++ trace b (final b s a1) a2.
+Proof.
+  induction a1 as [|o t IH]; intros s a2; cbn [app trace final]; [reflexivity|].
+  destruct (step b s o) as [s' r]. cbn [fst]. rewrite IH. reflexivity.
+Qed.
+
+Lemma man_writes_app h1 h2 : man_writes (h1 ++ h2) = man_writes h1 ++ man_writes h2.
+Proof.
+  induction h1 as [|e t IH]; cbn [app man_writes]; [reflexivity|].
+  destruct (man_write e); rewrite IH; reflexivity.
+Qed.
+
+Lemma step_no_write b s o s' r :
+  step b s o = (s', r) -> man_write (o, r) = None -> s' manifest_key = s manifest_key.
+Proof.
+  intros E W. destruct o as [k off len|k d f|e d f|k srcs f]; cbn [step] in E.
+  - assert (s' = s) as -> by (destruct (len <? 0)%Z; [|destruct (s k) as [[v val]|]]; inversion E; reflexivity).
+    reflexivity.
+  - inversion E; subst s' r. cbn [man_write] in W.
+    destruct (N.eqb_spec k manifest_key) as [->|Hk]; [discriminate|].
+    apply upd_other. intro X; apply Hk; symmetry; exact X.
+  - rewrite cap_check_spec in E.
+    destruct (N.eqb e (cur_ver s manifest_key)); inversion E; subst s' r; [discriminate|reflexivity].
+  - assert (Hw : man_write (OCat k srcs f, RVer f) = None ->
+                 upd s k (f, concat_blobs s srcs) manifest_key = s manifest_key).
+    { cbn [man_write]. destruct (N.eqb_spec k manifest_key) as [->|Hk]; [discriminate|].
+      intros _. apply upd_other. intro X; apply Hk; symmetry; exact X. }
+    destruct b.
+    + inversion E; subst s' r. apply Hw. exact W.
+    + destruct (forallb (present s) srcs); inversion E; subst s' r; [apply Hw; exact W|reflexivity].
+Qed.
+
+Lemma last_cons {A} (l : list A) : forall x d, last (x :: l) d = last l x.
+Proof.
+  induction l as [|y t IH]; intros x d; [reflexivity|].
+  change (last (x :: y :: t) d) with (last (y :: t) d). rewrite (IH y d), (IH y x). reflexivity.
+Qed.
+
+Lemma last_in {A} (l : list A) : forall d, l <> [] -> In (last l d) l.
+Proof.
+  induction l as [|x t IH]; intros d H; [contradiction|].
+  rewrite last_cons. destruct t as [|y t']; [left; reflexivity|].
+  right. apply IH. discriminate.
+Qed.
+
+Lemma cur_ver_final b ops : forall s,
+  cur_ver (final b s ops) manifest_key = last (man_writes (trace b s ops)) (cur_ver s manifest_key).
+Proof.
+  induction ops as [|o t IH]; intro s; cbn [final trace]; [reflexivity|].
+  destruct (step b s o) as [s' r] eqn:E. cbn [fst man_writes]. rewrite IH.
+  destruct (step_class _ _ _ _ _ E) as [[Hm [Hc _]]|[f [Hm [Hc _]]]]; rewrite Hm, Hc; [reflexivity|].
+  rewrite last_cons. reflexivity.
+Qed.
+
+Lemma no_writes_same b ops : forall s,
+  man_writes (trace b s ops) = [] -> final b s ops manifest_key = s manifest_key.
+Proof.
+  induction ops as [|o t IH]; intros s H; cbn [final trace] in *; [reflexivity|].
+  destruct (step b s o) as [s' r] eqn:E. cbn [fst man_writes] in *.
+  destruct (man_write (o, r)) eqn:W; [discriminate|].
+  rewrite (IH _ H). exact (step_no_write _ _ _ _ _ E W).
+Qed.
+
+(* blobstoreManifest.Update is read (version, contents) ... CheckAndPut(version):
+   other clients may run in between (any schedule sigma).  Under versions_distinct
+   the CheckAndPut succeeds only if nobody wrote the manifest in between, i.e. the
+   blob it replaces is the one that was read: read + CAS takes effect atomically
+   at the CAS.  (A losing CAS changes nothing: failed_cap_changes_nothing.) *)
+Theorem read_then_cap_is_atomic : forall b s1 (sigma : schedule) d f,
+  let ver := cur_ver s1 manifest_key in
+  versions_distinct s1 (trace b s1 (map snd sigma ++ [OCap ver d f])) ->
+  snd (step b (final b s1 (map snd sigma)) (OCap ver d f)) = RVer f ->
+  man_writes (sched_trace b s1 sigma) = []
+  /\ final b s1 (map snd sigma) manifest_key = s1 manifest_key.
+Proof.
+  intros b s1 sigma d f ver HD HS. unfold sched_trace. set (ops := map snd sigma) in *.
+  assert (Hv : ver = cur_ver (final b s1 ops) manifest_key).
+  { destruct (N.eq_dec ver (cur_ver (final b s1 ops) manifest_key)) as [Y|Y]; [exact Y|].
+    rewrite (proj2 (cap_succeeds_iff_expected_is_current b _ ver d f) Y) in HS. discriminate. }
+  unfold versions_distinct in HD. rewrite trace_app, man_writes_app in HD.
+  apply NoDup_cons_iff in HD as [Hnin _].
+  assert (E : man_writes (trace b s1 ops) = []).
+  { destruct (man_writes (trace b s1 ops)) as [|x l] eqn:M; [reflexivity|].
+    exfalso. apply Hnin. apply in_or_app. left.
+    rewrite cur_ver_final, M in Hv. fold ver in Hv.
+    assert (HI : In (last (x :: l) ver) (x :: l)) by (apply last_in; discriminate).
+    rewrite <- Hv in HI. exact HI. }
+  split; [exact E|]. apply no_writes_same. exact E.
+Qed.
+
+(* Without versions_distinct the statement is FALSE: if the blobstore hands out a
+   version again (LocalBlobstore: equal mtime strings), a CheckAndPut carrying the
+   version read before another client's write succeeds and overwrites that write.
+   This is what the known finding blobstore.local:mtime-version-collision permits. *)
+Theorem read_then_cap_is_atomic_without_versions_distinct_refuted :
+  exists b s1 (sigma : schedule) d f,
+    snd (step b (final b s1 (map snd sigma)) (OCap (cur_ver s1 manifest_key) d f)) = RVer f
+    /\ final b s1 (map snd sigma) manifest_key <> s1 manifest_key.
+Proof.
+  exists Local, (upd empty_store manifest_key (1, [1]))%N, [(1, OPut manifest_key [2] 1)]%N, [3]%N, 2%N.
+  split; [reflexivity|]. intro H. vm_compute in H. inversion H.
+Qed.
+
+(* ======================================================================== *)
+(* NBS on a blobstore = NBS on a local directory                              *)
+(* ======================================================================== *)
+Lemma parse_ser c : parse (ser c) = c.
+Proof. destruct c; reflexivity. Qed.
+
+Definition ms_rel (d : option mc) (s : store) : Prop := local_rd d = bs_rd s.
+
+(* blobstoreManifest.Update (read, CheckAndPut with the version read) computes
+   the same new persisted contents and returns the same contents as
+   fileManifest.Update, from related states, for every backend *)
+Theorem bs_update_refines_local : forall b d s last new fresh,
+  ms_rel d s ->
+  ms_rel (fst (local_upd d last new fresh)) (fst (bs_upd b s last new fresh))
+  /\ snd (local_upd d last new fresh) = snd (bs_upd b s last new fresh).
+Proof.
+  intros b d s last new fresh R. unfold ms_rel in R. unfold local_upd, bs_upd. rewrite <- R.
+  destruct (lock_eqb (local_rd d) last).
+  - rewrite (proj1 (cap_succeeds_iff_expected_is_current b s (cur_ver s manifest_key) (ser new) fresh) eq_refl).
+    cbn [fst snd]. split; [|reflexivity]. unfold ms_rel, bs_rd. rewrite upd_same, parse_ser. reflexivity.
+  - cbn [fst snd]. split; [exact R|reflexivity].
+Qed.
+
+Section Sim.
+  Variables (T1 T2 : Type) (rd1 : T1 -> mc) (rd2 : T2 -> mc).
+  Variables (upd1 : T1 -> mc -> mc -> N -> T1 * mc) (upd2 : T2 -> mc -> mc -> N -> T2 * mc).
+  Variable R : T1 -> T2 -> Prop.
+  Hypothesis R_rd : forall a b, R a b -> rd1 a = rd2 b.
+  Hypothesis R_upd : forall a b last new f, R a b ->
+    R (fst (upd1 a last new f)) (fst (upd2 b last new f)) /\ snd (upd1 a last new f) = snd (upd2 b last new f).
+
+  Lemma commit_try_sim a b cl cur last f : R a b ->
+    R (fst (fst (commit_try T1 upd1 a cl cur last f))) (fst (fst (commit_try T2 upd2 b cl cur last f)))
+    /\ snd (fst (commit_try T1 upd1 a cl cur last f)) = snd (fst (commit_try T2 upd2 b cl cur last f))
+    /\ snd (commit_try T1 upd1 a cl cur last f) = snd (commit_try T2 upd2 b cl cur last f).
+  Proof.
+    intro HR. unfold commit_try.
+    destruct (negb (fst (n_up cl) =? last)%N); [cbn [fst snd]; split; [exact HR|split; reflexivity]|].
+    destruct (negb (cur =? 0)%N && negb (mem_n cur (n_novel cl ++ snd (n_up cl))));
+      [cbn [fst snd]; split; [exact HR|split; reflexivity]|].
+    destruct (R_upd a b (n_up cl) (cur, n_novel cl ++ snd (n_up cl)) f HR) as [H1 H2].
+    destruct (upd1 a (n_up cl) (cur, n_novel cl ++ snd (n_up cl)) f) as [m1 r1].
+    destruct (upd2 b (n_up cl) (cur, n_novel cl ++ snd (n_up cl)) f) as [m2 r2].
+    cbn [fst snd] in H1, H2. subst r2.
+    destruct (lock_eqb (cur, n_novel cl ++ snd (n_up cl)) r1); [cbn [fst snd]; split; [exact H1|split; reflexivity]|].
+    destruct (negb (last =? fst r1)%N); cbn [fst snd]; (split; [exact H1|split; reflexivity]).
+  Qed.
+
+  Lemma commit_loop_sim a b cl cur last f1 f2 : R a b ->
+    R (fst (fst (commit_loop T1 upd1 a cl cur last f1 f2))) (fst (fst (commit_loop T2 upd2 b cl cur last f1 f2)))
+    /\ snd (fst (commit_loop T1 upd1 a cl cur last f1 f2)) = snd (fst (commit_loop T2 upd2 b cl cur last f1 f2))
+    /\ snd (commit_loop T1 upd1 a cl cur last f1 f2) = snd (commit_loop T2 upd2 b cl cur last f1 f2).
+  Proof.
+    intro HR. unfold commit_loop.
+    destruct (commit_try_sim a b cl cur last f1 HR) as (H1 & H2 & H3).
+    destruct (commit_try T1 upd1 a cl cur last f1) as [[m1 c1] o1].
+    destruct (commit_try T2 upd2 b cl cur last f1) as [[m2 c2] o2].
+    cbn [fst snd] in H1, H2, H3. subst c2 o2.
+    destruct o1 as [r|]; [cbn [fst snd]; split; [exact H1|split; reflexivity]|].
+    destruct (commit_try_sim m1 m2 c1 cur last f2 H1) as (G1 & G2 & G3).
+    destruct (commit_try T1 upd1 m1 c1 cur last f2) as [[m1' c1'] o1'].
+    destruct (commit_try T2 upd2 m2 c1 cur last f2) as [[m2' c2'] o2'].
+    cbn [fst snd] in G1, G2, G3. subst c2' o2'.
+    destruct o1' as [r|]; cbn [fst snd]; (split; [exact G1|split; reflexivity]).
+  Qed.
+
+  Lemma nstep_sim a b cl o : R a b ->
+    R (fst (fst (nstep T1 rd1 upd1 a cl o))) (fst (fst (nstep T2 rd2 upd2 b cl o)))
+    /\ snd (fst (nstep T1 rd1 upd1 a cl o)) = snd (fst (nstep T2 rd2 upd2 b cl o))
+    /\ snd (nstep T1 rd1 upd1 a cl o) = snd (nstep T2 rd2 upd2 b cl o).
+  Proof.
+    intro HR. destruct o as [x| |cur last f1 f2]; cbn [nstep].
+    - cbn [fst snd]. split; [exact HR|split; reflexivity].
+    - cbn [fst snd]. rewrite (R_rd _ _ HR). split; [exact HR|split; reflexivity].
+    - unfold commit. rewrite (R_rd _ _ HR).
+      destruct ((match n_novel cl with [] => true | _ :: _ => false end) && (cur =? match last with Some l => l | None => fst (n_up cl) end)%N).
+      + cbn [fst snd]. split; [exact HR|split; reflexivity].
+      + apply commit_loop_sim. exact HR.
+  Qed.
+
+  Lemma nrun_sim : forall sch a b cls, R a b ->
+    nrun T1 rd1 upd1 a cls sch = nrun T2 rd2 upd2 b cls sch.
+  Proof.
+    induction sch as [|[i o] rest IH]; intros a b cls HR; cbn [nrun]; [reflexivity|].
+    destruct (nth_error cls i) as [cl|]; [|apply IH; exact HR].
+    destruct (nstep_sim a b cl o HR) as (H1 & H2 & H3).
+    destruct (nstep T1 rd1 upd1 a cl o) as [[m1 c1] r1].
+    destruct (nstep T2 rd2 upd2 b cl o) as [[m2 c2] r2].
+    cbn [fst snd] in H1, H2, H3. subst c2 r2. rewrite (R_rd _ _ H1). f_equal. apply IH. exact H1.
+  Qed.
+End Sim.
+
+(* "A database stored on a blobstore offers the same root and chunk semantics as
+   a local one": for every backend, number of clients and history (every
+   schedule of Put / Rebase / Commit steps of the clients), the store whose
+   manifest lives in a blob updated by CheckAndPut produces exactly the
+   observations (result, caller's root, persisted root and chunk set) of the
+   store with a file manifest. *)
+Theorem bs_store_same_semantics : forall b n (sch : list (nat * nop)),
+  nrun_bs b n sch = nrun_local n sch.
+Proof.
+  intros b n sch. unfold nrun_bs, nrun_local. symmetry.
+  apply (nrun_sim _ _ _ _ _ _ ms_rel).
+  - intros a s H. exact H.
+  - intros a s last new f H. apply bs_update_refines_local. exact H.
+  - reflexivity.
+Qed.
+
+(* the blob- and file-manifest steps of one manifest.Update are interleaved with
+   other clients' steps in the real code; bs_store_same_semantics treats one
+   Update as one step.  What carries that abstraction: read_then_cap_is_atomic
+   (under versions_distinct a winning CheckAndPut replaces exactly the blob that
+   was read) and failed_cap_changes_nothing.  Full statement at blobstore-step
+   granularity (every interleaving of the read / CheckAndPut / re-read steps of
+   several clients is equivalent to an interleaving of atomic Updates) is not
+   proved here: a losing CheckAndPut followed by a re-read that finds contents
+   whose lock equals lastLock again (A-B-A on contents) returns "lock unchanged"
+   without having written, which no atomic Update does; NBS then retries. *)
+
+Lemma set_nth_length i c : forall l, length (set_nth i c l) = length l.
+Proof.
+  induction i as [|j IH]; intros [|h t]; cbn [set_nth length]; try reflexivity.
+  rewrite IH. reflexivity.
+Qed.
+
+Lemma nrun_length T rd upd : forall sch m cls,
+  forallb (fun io => Nat.ltb (fst io) (length cls)) sch = true ->
+  length (nrun T rd upd m cls sch) = length sch.
+Proof.
+  induction sch as [|[i o] rest IH]; intros m cls H; cbn [nrun]; [reflexivity|].
+  cbn [forallb fst] in H. apply andb_prop in H as [H1 H2]. apply Nat.ltb_lt in H1.
+  destruct (nth_error cls i) as [cl|] eqn:E.
+  - destruct (nstep T rd upd m cl o) as [[m' cl'] r]. cbn [length]. f_equal.
+    apply IH. rewrite set_nth_length. exact H2.
+  - apply nth_error_None in E. lia.
+Qed.
+
+Lemma list_eqb_refl {A} (eqb : A -> A -> bool) : (forall x, eqb x x = true) -> forall l, list_eqb eqb l l = true.
+Proof. intros H l. induction l as [|x t IH]; [reflexivity|]. cbn [list_eqb]. rewrite H, IH. reflexivity. Qed.
+
+Lemma nobs_eqb_refl x : nobs_eqb x x = true.
+Proof. unfold nobs_eqb. rewrite !N.eqb_refl, beq_bytes_refl. reflexivity. Qed.
+
+(* the oracle holds on every model run: blobstore cases under measured version
+   freshness; NBS cases whenever the history only names existing clients *)
+Theorem oracle_on_model : forall i : input,
+  match i with
+  | IBlob b sch => fresh_trace [] (sched_trace b empty_store sch) = true
+  | INbs n _ ops => forallb (fun io => Nat.ltb (fst io) n) ops = true
+  end ->
+  oracle i (model_obs i) = true.
+Proof.
+  intros [b sch|n univ ops] H; cbn [oracle model_obs].
+  - apply blob_oracle_on_model. exact H.
+  - rewrite !bs_store_same_semantics. rewrite !list_eqb_refl by exact nobs_eqb_refl.
+    rewrite map_length. unfold nrun_local. rewrite nrun_length.
+    + rewrite Nat.eqb_refl. reflexivity.
+    + unfold init_clients. rewrite repeat_length. exact H.
+Qed.
+
 (* non-vacuity: a schedule with two clients racing on the same expected version,
-   a stale retry and a reader satisfies versions_distinct and the oracle *)
+   a stale retry and a reader satisfies versions_distinct and the oracle; an NBS
+   history with a lost race, a retry and a dangling commit *)
 Example oracle_example :
-  let i : input := (Local, [(0, OCap 0 [1] 1); (1, OCap 1 [2] 2); (2, OCap 1 [3] 0); (2, OGet 0 (-1)%Z 0%Z); (1, OCap 0 [4] 0)])%N in
-  fresh_trace [] (sched_trace (fst i) empty_store (snd i)) = true
-  /\ model_obs i = [RVer 1; RVer 2; RCasFail 2; RBytes [2] 1 2; RCasFail 2]%N
+  let i : input := IBlob Local [(0, OCap 0 [1] 1); (1, OCap 1 [2] 2); (2, OCap 1 [3] 0); (2, OGet 0 (-1)%Z 0%Z); (1, OCap 0 [4] 0)]%N in
+  fresh_trace [] (sched_trace Local empty_store [(0, OCap 0 [1] 1); (1, OCap 1 [2] 2); (2, OCap 1 [3] 0); (2, OGet 0 (-1)%Z 0%Z); (1, OCap 0 [4] 0)]%N) = true
+  /\ model_obs i = OBlob [RVer 1; RVer 2; RCasFail 2; RBytes [2] 1 2; RCasFail 2]%N
   /\ check_case (i, model_obs i) = 0%N.
 Proof. vm_compute. repeat split. Qed.
+
+Local Open Scope N_scope.
+Example nbs_example :
+  let c0 := 0%nat in let c1 := 1%nat in
+  map (fun o => (fst (fst o), snd (fst o), fst (snd o)))
+      (nrun_bs InMem 2 [(c0, NPut 1); (c0, NCommit 1 None 1 2); (c1, NPut 2); (c1, NCommit 2 None 3 4); (c1, NCommit 2 None 5 6);
+                        (c0, NPut 3); (c0, NCommit 4 None 7 8); (c0, NCommit 0 (Some 0) 9 10); (c0, NRebase); (c0, NCommit 3 (Some 2) 11 12);
+                        (c1, NCommit 2 (Some 2) 13 14)])
+  = [(0, 0, 0); (0, 1, 1); (0, 0, 1); (1, 1, 1); (0, 2, 2); (0, 1, 2); (2, 1, 2); (1, 1, 2); (0, 2, 2); (0, 3, 3); (0, 3, 3)].
+Proof. vm_compute. reflexivity. Qed.
